@@ -1,0 +1,58 @@
+//go:build verif
+// +build verif
+
+package masswallet
+
+// Accessors used by the verification harness (/verif, property C02). Add-only; compiled
+// only with the build tag "verif". They call the unexported functions unchanged.
+
+import (
+	"github.com/massnetorg/mass-core/massutil"
+	"massnet.org/mass-wallet/masswallet/txmgr"
+)
+
+// VerifOptOutputs calls optOutputs unchanged (it sorts the slice it is given).
+func VerifOptOutputs(amount massutil.Amount, utxos []*txmgr.Credit) ([]*txmgr.Credit, massutil.Amount, massutil.Amount, error) {
+	return optOutputs(amount, utxos)
+}
+
+// VerifTopK feeds items, in order, to a topKSelector. k < 0 means the production
+// constructor newTopKSelector (k = GetMaxStandardTxSize()/154); otherwise a selector with the
+// given capacity is built exactly as newTopKSelector builds it. Returns the heap array, the
+// guard (nil if none) and K().
+func VerifTopK(k int, requireAmt massutil.Amount, items []*txmgr.Credit) (base []*txmgr.Credit, guard *txmgr.Credit, kk int, all []*txmgr.Credit) {
+	var s *topKSelector
+	if k < 0 {
+		s = newTopKSelector(requireAmt)
+	} else {
+		s = &topKSelector{k: k, base: make([]*txmgr.Credit, 0, k), requireAmt: requireAmt}
+	}
+	for _, it := range items {
+		s.submit(it)
+	}
+	base = append([]*txmgr.Credit{}, s.base...)
+	return base, s.guard, s.K(), s.Items()
+}
+
+// VerifMaybeSubtractFee calls maybeSubtractFeeFromAmounts unchanged.
+func VerifMaybeSubtractFee(amounts map[string]massutil.Amount, selected map[string]struct{}, fee massutil.Amount) (map[string]massutil.Amount, massutil.Amount, error) {
+	return maybeSubtractFeeFromAmounts(amounts, selected, fee)
+}
+
+// VerifEstimateSignedSize calls estimateSignedSize unchanged.
+func (w *WalletManager) VerifEstimateSignedSize(utxos []*txmgr.Credit, txOutLen int) (int64, error) {
+	return w.estimateSignedSize(utxos, txOutLen)
+}
+
+// VerifFindEligibleUtxos calls findEligibleUtxos unchanged (read lock taken like the callers do).
+func (w *WalletManager) VerifFindEligibleUtxos(amount massutil.Amount, addrs []string) ([]*txmgr.Credit, string, massutil.Amount, bool, error) {
+	w.mu.RLock()
+	defer w.mu.RUnlock()
+	return w.findEligibleUtxos(amount, addrs)
+}
+
+// VerifUsedCount is the number of reserved outpoints currently in the cache.
+func (w *WalletManager) VerifUsedCount() int { return w.usedCache.ItemCount() }
+
+// VerifClearUsed empties the reservation cache.
+func (w *WalletManager) VerifClearUsed() { w.usedCache.Flush() }
